@@ -15,6 +15,18 @@
           `OPT / 3`, every bin of a feasible schedule holds at most two items, a least loaded bin of *any*
           partition of the other items has room for the smallest item, and therefore LPT is optimal.
   * (iv)  `greedy_four_thirds`: the full theorem.
+  * §7 (second goal, partial): the max-min guarantee.  `greedy_maxmin_spread`
+          (`k · OPT ≤ k · min + (k − 1) · y`, `y` the `(k+1)`-th largest value), hence the exact
+          Deuermeyer–Friesen–Langston / Csirik–Kellerer–Woeginger bound `(4k − 2) · min ≥ (3k − 1) · OPT` when
+          `(4k − 2) · y ≤ k · OPT` (`greedy_maxmin_partial_small`), and unconditionally
+          `(2k − 1) · min ≥ k · OPT` (`greedy_maxmin_partial_half`).  The exact bound in the remaining case
+          (`k + 1` items above `OPT / 4`) is open.
+
+  The proof of (iv) is an induction over the prefixes of the sorted list (`run_four_thirds`), which makes the
+  classical "truncate after the critical item" step implicit: when the last (= smallest) item `x` of a prefix
+  raises the largest sum, either `3x ≤ T` and the averaging argument applies, or `3x > T` and `large_fits`
+  shows that it fits below `T`.  `large_fits` is a pure counting statement about *arbitrary* partitions; no
+  description of the shape of the LPT schedule is needed.
 -/
 import Mathlib.Tactic.Linarith
 import Prtpy
@@ -610,6 +622,445 @@ example : 3 * (2 : Nat) * (maxL (greedy id 2 [3, 3, 2, 2, 2]).sums : Int) ≤ (4
   greedy_four_thirds (v := id) (by decide) opt_33222
 example : 3 * (2 : Nat) * (maxL (greedy id 2 [3, 3, 2, 2, 2]).sums : Int) = (4 * (2 : Nat) - 1) * 6 := by decide
 
+/-! ## 7. Max-min: how far the smallest sum of LPT can be from the optimal smallest sum
+
+Second goal (Deuermeyer–Friesen–Langston, Csirik–Kellerer–Woeginger): `(4k − 2) · min ≥ (3k − 1) · OPT`.
+Proved here:
+* `greedy_maxmin_spread`:  `k · OPT ≤ k · min + (k − 1) · y`, where `y` is the `(k+1)`-th largest value
+  (the largest item that LPT can put on a non-empty bin);
+* `greedy_maxmin_partial_small`: the exact bound `(4k − 2) · min ≥ (3k − 1) · OPT` when `(4k − 2) · y ≤ k · OPT`;
+* `greedy_maxmin_partial_half`: unconditionally `(2k − 1) · min ≥ k · OPT`.
+The case `(4k − 2) · y > k · OPT` of the exact bound (all of the `k + 1` largest items above `OPT / 4`) is open.
+-/
+
+/-- a feasible assignment, presented as a list of `k` bins together with its sums -/
+theorem assignment_partition {k : Nat} {vals asg : List Nat} (hasg : IsAssignment k vals.length asg) :
+    ∃ Q : List (List Nat), Q.length = k ∧ Q.flatten.Perm vals ∧ Q.map sumL = sumsOf k vals asg := by
+  obtain ⟨h1, h2, h3, h4⟩ := Oracle.replay_spec id vals asg (Bins.new k) hasg.1
+    (fun a ha => by simpa using hasg.2 a ha) (Part.new_consistent id k)
+  refine ⟨_, by simpa using h1, by simpa [Part.new_flat] using h2, ?_⟩
+  have e : ∀ L : List (List Nat), L.map sumL = L.map (binSum id) :=
+    fun L => List.map_congr_left (fun l _ => (binSum_id l).symm)
+  rw [e, ← h3, h4]
+  simp [Oracle.sumsOf_eq, Bins.new]
+
+/-- weighted total: the members satisfying `p` count `c` each, the others count their value -/
+def gw (p : Nat → Bool) (c : Nat) (l : List Nat) : Nat := sumL (l.filter (fun a => !p a)) + c * l.countP p
+
+theorem gw_append (p : Nat → Bool) (c : Nat) (l₁ l₂ : List Nat) :
+    gw p c (l₁ ++ l₂) = gw p c l₁ + gw p c l₂ := by
+  simp only [gw, List.filter_append, Part.sumL_append, List.countP_append, Nat.mul_add]; omega
+
+theorem gw_perm (p : Nat → Bool) (c : Nat) {l₁ l₂ : List Nat} (h : l₁.Perm l₂) : gw p c l₁ = gw p c l₂ := by
+  simp only [gw, Part.sumL_perm (h.filter _), h.countP_eq]
+
+theorem gw_flatten (p : Nat → Bool) (c : Nat) (L : List (List Nat)) :
+    gw p c L.flatten = sumL (L.map (gw p c)) := by
+  induction L with
+  | nil => simp [gw, sumL]
+  | cons l L ih => simp only [List.flatten_cons, gw_append, List.map_cons, sumL, ih]
+
+theorem gw_of_none (p : Nat → Bool) (c : Nat) (l : List Nat) (h : ∀ a ∈ l, p a = false) :
+    gw p c l = sumL l := by
+  have h1 : l.filter (fun a => !p a) = l := List.filter_eq_self.2 (fun a ha => by simp [h a ha])
+  have h2 : l.countP p = 0 := List.countP_eq_zero.2 (fun a ha => by simp [h a ha])
+  simp [gw, h1, h2]
+
+theorem countP_flatten_sumL (p : Nat → Bool) (L : List (List Nat)) :
+    L.flatten.countP p = sumL (L.map (List.countP p)) := by
+  induction L with
+  | nil => rfl
+  | cons l L ih => simp only [List.flatten_cons, List.countP_append, List.map_cons, sumL, ih]
+
+/-- a covered bin weighs at least `W`, whatever the items that are counted `W` -/
+theorem cover_gw {W : Nat} (p : Nat → Bool) (l : List Nat) (h : W ≤ sumL l) : W ≤ gw p W l := by
+  by_cases h0 : l.countP p = 0
+  · rw [gw_of_none p W l (fun a ha => by simpa using List.countP_eq_zero.1 h0 a ha)]; exact h
+  · have : W ≤ W * l.countP p := Nat.le_mul_of_pos_right _ (Nat.pos_of_ne_zero h0)
+    simp only [gw]; omega
+
+/-- **Covering side.**  If `vals` can be split into `k` bins of sum `≥ W`, then for every class `p` of items:
+    `k · W ≤ (total of the items outside p) + W · (number of items in p)`. -/
+theorem cover_count {W k : Nat} {vals : List Nat} (p : Nat → Bool) (Q : List (List Nat)) (hk : Q.length = k)
+    (hp : Q.flatten.Perm vals) (hQ : ∀ l ∈ Q, W ≤ sumL l) : k * W ≤ gw p W vals := by
+  rw [← gw_perm p W hp, gw_flatten, ← hk]
+  have := Part.length_mul_le_sumL (Q.map (gw p W)) W 0 (fun a ha => by
+    obtain ⟨l, hl, rfl⟩ := List.mem_map.1 ha
+    have := cover_gw p l (hQ l hl); omega)
+  simpa using this
+
+theorem arith_spread {k a N W L y : Nat} (h1 : k * W ≤ N + W * a) (h2 : N + (L + y) * a + y ≤ k * L + k * y)
+    (h3 : a + 1 ≤ k) : k * W + y ≤ k * L + k * y := by
+  obtain ⟨j, rfl⟩ : ∃ j, k = a + 1 + j := ⟨k - (a + 1), by omega⟩
+  rcases Nat.le_total W (L + y) with h | h
+  · have := Nat.mul_le_mul_left a h
+    nlinarith
+  · have := Nat.mul_le_mul_left (j + 1) h
+    nlinarith
+
+/-- **LPT side, combinatorial core.**  Let `LL` be `k ≥ 1` bins with least sum `L`, such that every bin with at
+    least two items has sum `≤ L + y`, and let the same items be coverable to `W` in `k` bins.  Then
+    `k · W ≤ k · L + (k − 1) · y`. -/
+theorem spread_core {W k L y : Nat} {vals : List Nat} (LL Q : List (List Nat)) (hk : LL.length = k)
+    (hp : LL.flatten.Perm vals) (hL : L = minL (LL.map sumL)) (hk0 : 0 < k)
+    (hinv : ∀ l ∈ LL, l.length ≤ 1 ∨ sumL l ≤ L + y)
+    (hQk : Q.length = k) (hQp : Q.flatten.Perm vals) (hQ : ∀ l ∈ Q, W ≤ sumL l) :
+    k * W + y ≤ k * L + k * y := by
+  let big : Nat → Bool := fun a => decide (L + y < a)
+  have hne : LL.map sumL ≠ [] := by
+    intro h0
+    rw [List.map_eq_nil_iff] at h0
+    rw [h0] at hk
+    simp at hk; omega
+  -- the least loaded bin
+  obtain ⟨l₀, hl₀, e₀⟩ := List.mem_map.1 (Part.minL_mem hne)
+  rw [← hL] at e₀
+  have hnone₀ : ∀ a ∈ l₀, big a = false := fun a ha => by
+    have := le_sumL_of_mem ha
+    simp only [big, decide_eq_false_iff_not]; omega
+  -- every bin
+  have hbin : ∀ l ∈ LL, gw big (L + y) l ≤ L + y ∧ l.countP big ≤ 1 := by
+    intro l hl
+    match l, hinv l hl with
+    | [], _ => simp [gw, sumL]
+    | [a], _ =>
+      by_cases ha : L + y < a
+      · simp [gw, big, ha, sumL]
+      · simp [gw, big, ha, sumL]; omega
+    | a :: c :: t, h =>
+      have h' : sumL (a :: c :: t) ≤ L + y := by
+        rcases h with h | h
+        · simp at h
+        · exact h
+      have hn : ∀ z ∈ a :: c :: t, big z = false := fun z hz => by
+        have := le_sumL_of_mem hz
+        simp only [big, decide_eq_false_iff_not]; omega
+      rw [gw_of_none big _ _ hn]
+      exact ⟨h', by rw [List.countP_eq_zero.2 (fun z hz => by simp [hn z hz])]; omega⟩
+  -- sum over the bins
+  have s1 := Part.sumL_le_length_mul' (LL.map (gw big (L + y))) L y (fun a ha => by
+    obtain ⟨l, hl, rfl⟩ := List.mem_map.1 ha
+    exact (hbin l hl).1) (List.mem_map.2 ⟨l₀, hl₀, by rw [gw_of_none big _ _ hnone₀, e₀]⟩)
+  have s2 := Part.sumL_le_length_mul' (LL.map (List.countP big)) 0 1 (fun a ha => by
+    obtain ⟨l, hl, rfl⟩ := List.mem_map.1 ha
+    have := (hbin l hl).2; omega) (List.mem_map.2 ⟨l₀, hl₀,
+      List.countP_eq_zero.2 (fun z hz => by simp [hnone₀ z hz])⟩)
+  rw [← gw_flatten, gw_perm _ _ hp, List.length_map, hk] at s1
+  rw [← countP_flatten_sumL, hp.countP_eq, List.length_map, hk] at s2
+  have c1 := cover_count big Q hQk hQp hQ
+  simp only [gw] at s1 c1
+  exact arith_spread (a := vals.countP big) (N := sumL (vals.filter (fun a => !big a)))
+    (by omega) (by have := Nat.mul_comm (L + y) (vals.countP big); omega) (by omega)
+
+/-! ### the LPT invariant -/
+
+/-- every bin with at least two items is within `y` of the least loaded bin -/
+def SpreadInv (v : α → Nat) (b : Bins α) (y : Nat) : Prop :=
+  ∀ l ∈ b.lists, l.length ≤ 1 ∨ binSum v l ≤ minL b.sums + y
+
+theorem minL_le_minL_modify_add (s : List Nat) (i a : Nat) (hne : s ≠ []) :
+    minL s ≤ minL (s.modify i (· + a)) := by
+  have hne' : s.modify i (· + a) ≠ [] := by
+    intro h0; have := congrArg List.length h0; simp at this; exact hne this
+  rcases Part.mem_modify (Part.minL_mem hne') with h | ⟨hi, h⟩
+  · exact Part.minL_le h
+  · have := Part.minL_le (List.getElem_mem hi); omega
+
+/-- pigeonhole: fewer items than bins leaves a bin empty -/
+theorem nil_mem_of_flatten_lt {β : Type} (Ls : List (List β)) (h : Ls.flatten.length < Ls.length) :
+    [] ∈ Ls := by
+  induction Ls with
+  | nil => simp at h
+  | cons l Ls ih =>
+    cases l with
+    | nil => simp
+    | cons a t =>
+      simp only [List.flatten_cons, List.length_append, List.length_cons] at h
+      exact List.mem_cons_of_mem _ (ih (by omega))
+
+theorem le_binSum_of_mem (v : α → Nat) {l : List α} {a : α} (h : a ∈ l) : v a ≤ binSum v l :=
+  le_sumL_of_mem (List.mem_map_of_mem h)
+
+theorem spreadInv_step {v : α → Nat} {k : Nat} (hk : 0 < k) {b : Bins α} {done : List α} {y : Nat}
+    (hv : Part.Valid v k b done) (hinv : SpreadInv v b y) (x : α)
+    (hx : v x ≤ y ∨ (done.length < k ∧ ∀ a ∈ done, v x ≤ v a)) : SpreadInv v (greedyStep v b x) y := by
+  obtain ⟨hperm, hlists, hcons⟩ := hv
+  have hlen : b.sums.length = k := by rw [Part.consistent_length v hcons, hlists]
+  have hne : b.sums ≠ [] := by intro h0; rw [h0] at hlen; simp at hlen; omega
+  have hlt := Part.argmin_lt hne
+  have hmin : minL b.sums ≤ minL (greedyStep v b x).sums := minL_le_minL_modify_add _ _ _ hne
+  intro l' hl'
+  rcases Part.mem_modify hl' with h | ⟨hi, rfl⟩
+  · rcases hinv l' h with h1 | h1
+    · exact Or.inl h1
+    · exact Or.inr (by omega)
+  · have hsum : b.sums[argmin b.sums] = binSum v b.lists[argmin b.sums] := by
+      have hc : b.sums = b.lists.map (binSum v) := hcons
+      simp [hc]
+    rw [Part.getElem_argmin hlt] at hsum
+    rw [Oracle.binSum_concat]
+    by_cases hxy : v x ≤ y
+    · exact Or.inr (by omega)
+    · left
+      obtain ⟨hd, hall⟩ : done.length < k ∧ ∀ a ∈ done, v x ≤ v a := by
+        rcases hx with hx | hx
+        · exact absurd hx hxy
+        · exact hx
+      have hnil : ([] : List α) ∈ b.lists :=
+        nil_mem_of_flatten_lt b.lists (by rw [hperm.length_eq, hlists]; exact hd)
+      have h0 : (0 : Nat) ∈ b.sums := by
+        have hc : b.sums = b.lists.map (binSum v) := hcons
+        rw [hc]; exact List.mem_map.2 ⟨[], hnil, rfl⟩
+      have hm0 : minL b.sums = 0 := by have := Part.minL_le h0; omega
+      have hempty : b.lists[argmin b.sums] = [] := by
+        cases hl : b.lists[argmin b.sums] with
+        | nil => rfl
+        | cons a t =>
+          exfalso
+          have ha : a ∈ b.lists[argmin b.sums] := by rw [hl]; simp
+          have h1 := le_binSum_of_mem v ha
+          have h2 := hall a (hperm.mem_iff.1 (List.mem_flatten.2 ⟨_, List.getElem_mem hi, ha⟩))
+          omega
+      simp [hempty]
+
+theorem run_spreadInv {v : α → Nat} {k : Nat} (hk : 0 < k) {S : List α}
+    (hS : S.Pairwise (fun a c => v c ≤ v a)) {y : Nat}
+    (hy : ∀ j (h : j < S.length), k ≤ j → v S[j] ≤ y) :
+    ∀ P rest, S = P ++ rest → SpreadInv v (run v k P) y := by
+  intro P
+  induction P using Oracle.rev_induction with
+  | nil =>
+    intro rest _ l hl
+    simp only [run, List.foldl_nil, Bins.new, List.mem_replicate] at hl
+    left; rw [hl.2]; simp
+  | snoc P x ih =>
+    intro rest hrest
+    have hrest' : S = P ++ (x :: rest) := by rw [hrest]; simp
+    rw [run_snoc]
+    apply spreadInv_step hk (run_valid v hk P) (ih _ hrest')
+    by_cases hj : k ≤ P.length
+    · left
+      have := hy P.length (by rw [hrest']; simp) hj
+      simpa [hrest'] using this
+    · right
+      refine ⟨by omega, ?_⟩
+      rw [hrest'] at hS
+      intro a ha
+      exact (List.pairwise_append.1 hS).2.2 a ha x (by simp)
+
+/-- the `(k+1)`-th largest value (`0` if there are at most `k` items): no larger item is ever put on a
+    non-empty bin by LPT -/
+def nextValue (v : α → Nat) (k : Nat) (items : List α) : Nat := ((sortDesc v items).map v).getD k 0
+
+theorem nextValue_spec (v : α → Nat) (k : Nat) (items : List α) :
+    ∀ j (h : j < (sortDesc v items).length), k ≤ j → v (sortDesc v items)[j] ≤ nextValue v k items := by
+  intro j h hkj
+  have hk : k < (sortDesc v items).length := by omega
+  have e : nextValue v k items = v (sortDesc v items)[k] := by
+    simp [nextValue, List.getD_eq_getElem?_getD, hk]
+  rw [e]
+  rcases Nat.lt_or_ge k j with hlt | hge
+  · exact (List.pairwise_iff_getElem.1 (Part.sortDesc_sorted v items)) k j hk h hlt
+  · have : j = k := by omega
+    subst this; exact Nat.le_refl _
+
+/-- the optimal smallest sum, as a covering -/
+theorem cover_of_opt {k : Nat} {vals : List Nat} {opt : Int} (_hk : 0 < k)
+    (hopt : IsOptimalValue .maxSmallest k vals (-opt)) :
+    ∃ W : Nat, (W : Int) = opt ∧ ∃ Q : List (List Nat), Q.length = k ∧ Q.flatten.Perm vals ∧
+      ∀ l ∈ Q, W ≤ sumL l := by
+  obtain ⟨⟨asg, hasg, he⟩, _⟩ := hopt
+  obtain ⟨Q, hQk, hQp, hQs⟩ := assignment_partition hasg
+  refine ⟨minL (sumsOf k vals asg), ?_, Q, hQk, hQp, ?_⟩
+  · simp only [Objective.value, Bool.false_eq_true, if_false] at he; omega
+  · intro l hl
+    rw [← hQs]
+    exact Part.minL_le (List.mem_map_of_mem hl)
+
+/-- **Spread bound for max-min.**  `k · OPT ≤ k · min + (k − 1) · y` with `y` the `(k+1)`-th largest value
+    (written without subtraction). -/
+theorem greedy_maxmin_spread {v : α → Nat} {k : Nat} {items : List α} (hk : 0 < k) {opt : Int}
+    (hopt : IsOptimalValue .maxSmallest k (items.map v) (-opt)) :
+    k * opt + nextValue v k items ≤
+      k * (minL (greedy v k items).sums : Int) + k * (nextValue v k items : Int) := by
+  obtain ⟨W, hW, Q, hQk, hQp, hQ⟩ := cover_of_opt hk hopt
+  have hinv := run_spreadInv hk (Part.sortDesc_sorted v items) (nextValue_spec v k items)
+    (sortDesc v items) [] (by simp)
+  obtain ⟨h1, h2, h3⟩ := run_valid v hk (sortDesc v items)
+  have hc : (run v k (sortDesc v items)).sums = (run v k (sortDesc v items)).lists.map (binSum v) := h3
+  have key := spread_core (W := W) (k := k) (L := minL (greedy v k items).sums) (y := nextValue v k items)
+    (vals := (sortDesc v items).map v)
+    ((run v k (sortDesc v items)).lists.map (List.map v)) Q (by simpa using h2)
+    (by rw [← List.map_flatten]; exact h1.map v)
+    (by rw [greedy_eq_run, hc, List.map_map]; rfl) hk
+    (by
+      intro l' hl'
+      obtain ⟨l, hl, rfl⟩ := List.mem_map.1 hl'
+      rcases hinv l hl with h | h
+      · left; simpa using h
+      · right; rw [greedy_eq_run]; exact h)
+    hQk (hQp.trans ((Part.sortDesc_perm v items).map v).symm) hQ
+  rw [← hW]
+  exact_mod_cast key
+
+/-- non-vacuity: `[3, 3, 2, 2, 2]` on two bins: optimal smallest sum `6`, LPT's smallest sum `5`, third largest
+    value `2`: `2 · 6 + 2 ≤ 2 · 5 + 2 · 2` (tight) -/
+theorem optmin_33222 : IsOptimalValue .maxSmallest 2 ([3, 3, 2, 2, 2].map id) (-6) := by
+  refine ⟨⟨[0, 0, 1, 1, 1], ⟨rfl, by decide⟩, by decide⟩, ?_⟩
+  intro asg hasg
+  obtain ⟨Q, hQk, hQp, hQs⟩ := assignment_partition hasg
+  have h1 := length_mul_minL_le (sumsOf 2 ([3, 3, 2, 2, 2].map id) asg)
+  rw [← hQs, ← sumL_flatten, Part.sumL_perm hQp, List.length_map, hQk] at h1
+  simp only [Objective.value, Bool.false_eq_true, if_false]
+  have : sumL ([3, 3, 2, 2, 2].map id) = 12 := by decide
+  rw [← hQs]
+  omega
+
+example : (2 : Nat) * (6 : Int) + nextValue id 2 [3, 3, 2, 2, 2] ≤
+    (2 : Nat) * (minL (greedy id 2 [3, 3, 2, 2, 2]).sums : Int) + (2 : Nat) * (nextValue id 2 [3, 3, 2, 2, 2] : Int) :=
+  greedy_maxmin_spread (v := id) (by decide) optmin_33222
+example : nextValue id 2 [3, 3, 2, 2, 2] = 2 ∧ minL (greedy id 2 [3, 3, 2, 2, 2]).sums = 5 := by decide
+
+/-- **Max-min, exact bound, partial**: `(4k − 2) · min ≥ (3k − 1) · OPT` provided the `(k+1)`-th largest value
+    `y` satisfies `(4k − 2) · y ≤ k · OPT`.
+    Missing for the full Deuermeyer–Friesen–Langston / Csirik–Kellerer–Woeginger theorem: the case
+    `(4k − 2) · y > k · OPT`, in which the `k + 1` largest items all exceed `OPT / 4`. -/
+theorem greedy_maxmin_partial_small {v : α → Nat} {k : Nat} {items : List α} (hk : 0 < k) {opt : Int}
+    (hopt : IsOptimalValue .maxSmallest k (items.map v) (-opt))
+    (hy : (4 * k - 2) * (nextValue v k items : Int) ≤ k * opt) :
+    (4 * k - 2) * (minL (greedy v k items).sums : Int) ≥ (3 * k - 1) * opt := by
+  have key := greedy_maxmin_spread hk hopt
+  obtain ⟨k', rfl⟩ : ∃ k', k = k' + 1 := ⟨k - 1, by omega⟩
+  push_cast at key hy ⊢
+  have hk' : (0 : Int) ≤ k' := Int.natCast_nonneg k'
+  have hy0 : (0 : Int) ≤ (nextValue v (k' + 1) items : Int) := Int.natCast_nonneg _
+  have hkpos : (0 : Int) < (k' : Int) + 1 := by omega
+  have h1 : ((k' : Int) + 1) * ((3 * ((k' : Int) + 1) - 1) * opt) ≤
+      ((k' : Int) + 1) * ((4 * ((k' : Int) + 1) - 2) * (minL (greedy v (k' + 1) items).sums : Int)) := by
+    nlinarith [mul_le_mul_of_nonneg_left hy hk', mul_le_mul_of_nonneg_left key (show (0 : Int) ≤ 4 * k' + 2 by omega)]
+  exact le_of_mul_le_mul_left h1 hkpos
+
+/-! ### the `(k+1)`-th largest value is at most LPT's smallest sum -/
+
+theorem run_sums_ne_nil (v : α → Nat) {k : Nat} (hk : 0 < k) (P : List α) : (run v k P).sums ≠ [] := by
+  intro h0
+  have := run_sums_length v hk P
+  rw [h0] at this; simp at this; omega
+
+/-- the smallest sum never decreases during the run -/
+theorem run_min_mono (v : α → Nat) {k : Nat} (hk : 0 < k) (P R : List α) :
+    minL (run v k P).sums ≤ minL (run v k (P ++ R)).sums := by
+  induction R using Oracle.rev_induction with
+  | nil => simp
+  | snoc R x ih =>
+    rw [← List.append_assoc, run_snoc]
+    exact Nat.le_trans ih (minL_le_minL_modify_add _ _ _ (run_sums_ne_nil v hk _))
+
+theorem flatten_length_le {β : Type} (Ls : List (List β)) (h : ∀ l ∈ Ls, l.length ≤ 1) :
+    Ls.flatten.length ≤ Ls.length := by
+  induction Ls with
+  | nil => simp
+  | cons l Ls ih =>
+    have h1 := h l List.mem_cons_self
+    have h2 := ih (fun l' hl' => h l' (List.mem_cons_of_mem _ hl'))
+    simp only [List.flatten_cons, List.length_append, List.length_cons]
+    omega
+
+/-- while all items are `≥ y`: either every bin already reaches `y`, or no bin holds two items -/
+theorem run_first {v : α → Nat} {k : Nat} (hk : 0 < k) (y : Nat) :
+    ∀ P : List α, (∀ a ∈ P, y ≤ v a) →
+      y ≤ minL (run v k P).sums ∨ ∀ l ∈ (run v k P).lists, l.length ≤ 1 := by
+  intro P
+  induction P using Oracle.rev_induction with
+  | nil =>
+    intro _
+    right
+    intro l hl
+    simp only [run, List.foldl_nil, Bins.new, List.mem_replicate] at hl
+    rw [hl.2]; simp
+  | snoc P x ih =>
+    intro hP
+    have hP' : ∀ a ∈ P, y ≤ v a := fun a ha => hP a (by simp [ha])
+    rcases ih hP' with h | h
+    · left
+      exact Nat.le_trans h (run_min_mono v hk P [x])
+    · by_cases hm : y ≤ minL (run v k P).sums
+      · left
+        exact Nat.le_trans hm (run_min_mono v hk P [x])
+      · right
+        obtain ⟨hperm, hlists, hcons⟩ := run_valid v hk P
+        have hlt := Part.argmin_lt (run_sums_ne_nil v hk P)
+        have hc : (run v k P).sums = (run v k P).lists.map (binSum v) := hcons
+        rw [run_snoc]
+        intro l' hl'
+        rcases Part.mem_modify hl' with h' | ⟨hi, rfl⟩
+        · exact h l' h'
+        · have hsum : (run v k P).sums[argmin (run v k P).sums] =
+              binSum v (run v k P).lists[argmin (run v k P).sums] := by simp [hc]
+          rw [Part.getElem_argmin hlt] at hsum
+          have hempty : (run v k P).lists[argmin (run v k P).sums] = [] := by
+            cases hl : (run v k P).lists[argmin (run v k P).sums] with
+            | nil => rfl
+            | cons a t =>
+              exfalso
+              have ha : a ∈ (run v k P).lists[argmin (run v k P).sums] := by rw [hl]; simp
+              have h1 := le_binSum_of_mem v ha
+              have h2 := hP' a (hperm.mem_iff.1 (List.mem_flatten.2 ⟨_, List.getElem_mem hi, ha⟩))
+              omega
+          simp [hempty]
+
+/-- LPT's smallest sum is at least the `(k+1)`-th largest value -/
+theorem nextValue_le_min {v : α → Nat} {k : Nat} {items : List α} (hk : 0 < k) :
+    nextValue v k items ≤ minL (greedy v k items).sums := by
+  by_cases hn : k < (sortDesc v items).length
+  · have e : nextValue v k items = v (sortDesc v items)[k] := by
+      simp [nextValue, List.getD_eq_getElem?_getD, hn]
+    have hsplit : sortDesc v items = (sortDesc v items).take (k + 1) ++ (sortDesc v items).drop (k + 1) :=
+      (List.take_append_drop _ _).symm
+    have hall : ∀ a ∈ (sortDesc v items).take (k + 1), nextValue v k items ≤ v a := by
+      intro a ha
+      obtain ⟨i, hi, rfl⟩ := List.mem_iff_getElem.1 ha
+      rw [List.getElem_take, e]
+      have hi' : i < k + 1 := by simp at hi; omega
+      rcases Nat.lt_or_ge i k with hlt | hge
+      · exact (List.pairwise_iff_getElem.1 (Part.sortDesc_sorted v items)) i k (by omega) hn hlt
+      · have : i = k := by omega
+        subst this; exact Nat.le_refl _
+    rw [greedy_eq_run, hsplit]
+    refine Nat.le_trans ?_ (run_min_mono v hk _ _)
+    rcases run_first hk (nextValue v k items) _ hall with h | h
+    · exact h
+    · exfalso
+      obtain ⟨hperm, hlists, _⟩ := run_valid v hk ((sortDesc v items).take (k + 1))
+      have := flatten_length_le _ h
+      rw [hperm.length_eq, hlists, List.length_take] at this
+      omega
+  · have e : nextValue v k items = 0 := by
+      have hnone : (sortDesc v items)[k]? = none := List.getElem?_eq_none (by omega)
+      simp [nextValue, List.getD_eq_getElem?_getD, hnone]
+    omega
+
+/-- **Max-min, unconditional partial bound**: `(2k − 1) · min ≥ k · OPT`, i.e. LPT's smallest sum is at least
+    `k / (2k − 1) > 1/2` of the optimal smallest sum.  (The exact constant `(3k − 1) / (4k − 2)` is proved in
+    `greedy_maxmin_partial_small` under an extra hypothesis.) -/
+theorem greedy_maxmin_partial_half {v : α → Nat} {k : Nat} {items : List α} (hk : 0 < k) {opt : Int}
+    (hopt : IsOptimalValue .maxSmallest k (items.map v) (-opt)) :
+    (2 * k - 1) * (minL (greedy v k items).sums : Int) ≥ k * opt := by
+  have key := greedy_maxmin_spread hk hopt
+  have hy : (nextValue v k items : Int) ≤ (minL (greedy v k items).sums : Int) := by
+    exact_mod_cast nextValue_le_min (v := v) (items := items) hk
+  obtain ⟨k', rfl⟩ : ∃ k', k = k' + 1 := ⟨k - 1, by omega⟩
+  push_cast at key ⊢
+  have hk' : (0 : Int) ≤ k' := Int.natCast_nonneg k'
+  nlinarith [mul_le_mul_of_nonneg_left hy hk']
+
+/-- non-vacuity: `[3, 3, 2, 2, 2]`, `k = 2`: `OPT = 6`, LPT's smallest sum is `5`; `3 · 5 ≥ 2 · 6`, and the exact
+    bound `6 · 5 ≥ 5 · 6` is tight (the hypothesis reads `6 · 2 ≤ 2 · 6`) -/
+example : (2 * (2 : Nat) - 1) * (minL (greedy id 2 [3, 3, 2, 2, 2]).sums : Int) ≥ (2 : Nat) * 6 :=
+  greedy_maxmin_partial_half (v := id) (by decide) optmin_33222
+example : (4 * (2 : Nat) - 2) * (minL (greedy id 2 [3, 3, 2, 2, 2]).sums : Int) ≥ (3 * (2 : Nat) - 1) * 6 :=
+  greedy_maxmin_partial_small (v := id) (by decide) optmin_33222 (by decide)
+
 end Prtpy.LPT43
 
 /-
@@ -631,4 +1082,14 @@ Axiom audit (Lean 4.33.0; output observed with the commands appended to a copy o
   -- 'Prtpy.LPT43.two_per_bin_count' depends on axioms: [propext, Classical.choice, Quot.sound]
 #print axioms Prtpy.LPT43.opt_prefix_le
   -- 'Prtpy.LPT43.opt_prefix_le' depends on axioms: [propext, Classical.choice, Quot.sound]
+#print axioms Prtpy.LPT43.run_four_thirds
+  -- 'Prtpy.LPT43.run_four_thirds' depends on axioms: [propext, Classical.choice, Quot.sound]
+#print axioms Prtpy.LPT43.spread_core
+  -- 'Prtpy.LPT43.spread_core' depends on axioms: [propext, Classical.choice, Quot.sound]
+#print axioms Prtpy.LPT43.greedy_maxmin_spread
+  -- 'Prtpy.LPT43.greedy_maxmin_spread' depends on axioms: [propext, Classical.choice, Quot.sound]
+#print axioms Prtpy.LPT43.greedy_maxmin_partial_small
+  -- 'Prtpy.LPT43.greedy_maxmin_partial_small' depends on axioms: [propext, Classical.choice, Quot.sound]
+#print axioms Prtpy.LPT43.greedy_maxmin_partial_half
+  -- 'Prtpy.LPT43.greedy_maxmin_partial_half' depends on axioms: [propext, Classical.choice, Quot.sound]
 -/
